@@ -220,8 +220,31 @@ func checkMain(args []string) int {
 		sort.Strings(ids)
 		os.MkdirAll(filepath.Dir(regFile), 0o755)
 		os.WriteFile(regFile, []byte(strings.Join(ids, "\n")+"\n"), 0o644)
-	} else if b, err := os.ReadFile(regFile); err == nil {
-		for _, id := range strings.Split(strings.TrimSpace(string(b)), "\n") {
+	} else {
+		// the thorough tier runs everything the quick tier does: its registrations apply too
+		var lines []string
+		if b, err := os.ReadFile(regFile); err == nil {
+			lines = append(lines, strings.Split(strings.TrimSpace(string(b)), "\n")...)
+		}
+		if tier == "thorough" {
+			if b, err := os.ReadFile(filepath.Join(verifDir, "obligations", prop+".quick.list")); err == nil {
+				lines = append(lines, strings.Split(strings.TrimSpace(string(b)), "\n")...)
+			}
+		}
+		// whether a return site is unreachable under the contracts is a fact about
+		// the function, not the property: registrations of every property count
+		if all, _ := filepath.Glob(filepath.Join(verifDir, "obligations", "*.list")); all != nil {
+			for _, f := range all {
+				if b, err := os.ReadFile(f); err == nil {
+					for _, id := range strings.Split(strings.TrimSpace(string(b)), "\n") {
+						if strings.HasSuffix(id, "\tvacuous") {
+							expectedVacuous[strings.TrimSuffix(id, "\tvacuous")] = true
+						}
+					}
+				}
+			}
+		}
+		for _, id := range lines {
 			if strings.HasSuffix(id, "\tvacuous") {
 				expectedVacuous[strings.TrimSuffix(id, "\tvacuous")] = true
 				continue
